@@ -51,7 +51,7 @@ func loadEngine(repo string, patterns []string, overlay map[string][]byte) (*Eng
 	}
 	prog, spkgs := ssautil.AllPackages(pkgs, ssa.BuilderMode(0))
 	prog.Build()
-	eng := &Engine{pkgs: pkgs, prog: prog, spkgs: map[string]*ssa.Package{}, conOf: map[*ssa.Function]*Contract{}, byName: map[string]*ssa.Function{}}
+	eng := &Engine{pkgs: pkgs, prog: prog, spkgs: map[string]*ssa.Package{}, conOf: map[*ssa.Function]*Contract{}, byName: map[string]*ssa.Function{}, effMemo: map[*ssa.Function]*effSet{}}
 	if len(pkgs) > 0 {
 		eng.fset = pkgs[0].Fset
 	}
@@ -360,6 +360,13 @@ func (vc *VC) runTop() {
 		}
 		if named != nil && named[i] != "" && named[i] != "_" {
 			binds[named[i]] = rv
+		}
+	}
+	// reachability cover of every return (vacuity guard: an unreachable return
+	// means an assumption upstream is contradictory)
+	if len(fr.rets) > 1 && len(fr.rets) <= 40 {
+		for i, r := range fr.rets {
+			vc.obls = append(vc.obls, &Obligation{Name: fmt.Sprintf("%s/cover/return-%d-reachable", vc.fnName(), i+1), Kind: "cover", Func: vc.fnName(), Prefix: len(vc.asserts), Guard: r.st.reach, Goal: "true", vc: vc, Cover: true})
 		}
 	}
 	// reachability cover of the normal exit
